@@ -65,6 +65,7 @@ func c09Cases(tier string, seed int64) []core.Case {
 		cases = append(cases, core.Case{ID: fmt.Sprintf("early-reply/dotu=%v", dotu), Run: func(ctx *core.Ctx) core.Result { return c09EarlyReply(ctx, dotu) }})
 		cases = append(cases, core.Case{ID: fmt.Sprintf("errors/dotu=%v", dotu), Run: func(ctx *core.Ctx) core.Result { return c09Errors(ctx, dotu) }})
 		cases = append(cases, core.Case{ID: fmt.Sprintf("tagiface/dotu=%v", dotu), Run: func(ctx *core.Ctx) core.Result { return c09TagIface(ctx, dotu, tier == "thorough") }})
+		cases = append(cases, core.Case{ID: fmt.Sprintf("tagiface-all-operations/dotu=%v", dotu), Run: func(ctx *core.Ctx) core.Result { return c09TagMixed(ctx, dotu, tier == "thorough") }})
 	}
 	wrap := 70000
 	if tier == "thorough" {
@@ -194,12 +195,58 @@ func (s *sess) do(c call) string {
 		if err := s.c.Wstat(f, &go9p.Dir{Name: "x"}); err != nil {
 			return "error: " + err.Error()
 		}
+	case "create":
+		f.Iounit = 0
+		if err := s.c.Create(f, fmt.Sprintf("n%d", c.fidn), 0o644, 1, ""); err != nil {
+			return "error: " + err.Error()
+		}
+		if f.Qid.Path != peer.QidFor(c.fidn).Path {
+			return fmt.Sprintf("create(fid %d) returned the qid of another request", c.fidn)
+		}
+		if f.Iounit != s.c.Msize-go9p.IOHDRSZ {
+			return fmt.Sprintf("create(fid %d) left iounit %d", c.fidn, f.Iounit)
+		}
+	case "remove":
+		if err := s.c.Remove(f); err != nil {
+			return "error: " + err.Error()
+		}
+	case "attach":
+		// (the client picks the fid number itself; the peer derives the qid from the number it received)
+		nf, err := s.c.Attach(nil, s.user, "an")
+		if err != nil {
+			return "error: " + err.Error()
+		}
+		if nf.Qid.Path != peer.QidFor(nf.Fid).Path {
+			return fmt.Sprintf("attach returned fid %d with the qid of another request", nf.Fid)
+		}
+		_ = s.c.Clunk(nf)
+	case "auth":
+		af, err := s.c.Auth(s.user, "an")
+		if err != nil {
+			return "error: " + err.Error()
+		}
+		nf, err := s.c.Attach(af, s.user, "an")
+		if err != nil {
+			return "error: " + err.Error()
+		}
+		if nf.Qid.Path != peer.QidFor(nf.Fid).Path || nf.Fid == af.Fid {
+			return fmt.Sprintf("attach through an auth fid returned fid %d (afid %d) with the qid of another request", nf.Fid, af.Fid)
+		}
+		_ = s.c.Clunk(nf)
+		_ = s.c.Clunk(af)
 	}
 	return ""
 }
 
+// singleRequestCalls: call kinds that put exactly one request on the wire (the permutation scenario answers exactly
+// k requests); "attach" and "auth" are sequences of calls and belong to the storms, whose peer answers whatever arrives.
+var singleOnly bool
+
 func mkcall(r *core.Rand, id uint32, maxcount int) call {
-	kinds := []string{"read", "read", "read", "write", "stat", "walk", "open", "wstat"}
+	kinds := []string{"read", "read", "read", "write", "stat", "walk", "open", "wstat", "create", "remove", "attach", "auth"}
+	if singleOnly {
+		kinds = kinds[:len(kinds)-2]
+	}
 	k := kinds[r.Intn(len(kinds))]
 	c := call{kind: k, fidn: id*4 + 100, offset: uint64(r.Intn(1 << 30)), count: uint32(r.Intn(maxcount + 1))}
 	if k == "write" {
@@ -249,6 +296,8 @@ func c09Perms(ctx *core.Ctx, dotu bool) core.Result {
 	}
 	defer s.close()
 	r := core.NewRand(ctx.Seed, fmt.Sprintf("c09perm/%v", dotu))
+	singleOnly = true
+	defer func() { singleOnly = false }()
 	id := uint32(0)
 	for k := 1; k <= 5; k++ {
 		for _, perm := range permutations(k) {
@@ -759,5 +808,175 @@ func c09EarlyReply(ctx *core.Ctx, dotu bool) core.Result {
 		res.Sig(fmt.Sprintf("early-reply|%v|%d", dotu, round))
 	}
 	res.Sample(map[string]interface{}{"scenario": "server answers a large Twrite after its header, client reuses the request buffer while the rest is still being written"})
+	return res
+}
+
+// c09TagMixed: the whole pipelined Tag interface — Auth, Attach, Walk, Open, Create, Read, Write, Clunk, Remove,
+// Stat, Wstat under one shared tag, some refused by the peer — every completion is the answer to the request issued
+// at that position, carries that request, has had its effect on the fid it names, and its slot is given back
+// (Tag.ReqFree) so that nothing is lost at the end.
+func c09TagMixed(ctx *core.Ctx, dotu bool, thorough bool) core.Result {
+	var res core.Result
+	s, err := connect(8192, dotu, false)
+	if err != nil {
+		res.Inconclusive = "c09: " + err.Error()
+		return res
+	}
+	defer s.close()
+	s.p.AllowDupTag = true
+	r := core.NewRand(ctx.Seed, fmt.Sprintf("c09tagmixed/%v", dotu))
+	rounds := 60
+	if thorough {
+		rounds = 800
+	}
+	kinds := []string{"auth", "attach", "walk", "open", "create", "read", "write", "clunk", "remove", "stat", "wstat"}
+	user := go9p.OsUsers.Uid2User(0)
+	for round := 0; round < rounds; round++ {
+		n := 1 + r.Intn(10)
+		reqchan := make(chan *go9p.Req, 64)
+		tag := s.c.TagAlloc(reqchan)
+		if round%3 == 1 {
+			s.ctl.Random(uint64(ctx.Seed)+uint64(round), 250, 100)
+		}
+		type exp struct {
+			kind string
+			typ  uint8
+			fid  *go9p.Fid
+			nf   *go9p.Fid
+			off  uint64
+			cnt  uint32
+			data []byte
+		}
+		var exps []exp
+		for i := 0; i < n; i++ {
+			k := kinds[r.Intn(len(kinds))]
+			if round < len(kinds) && i == 0 {
+				k = kinds[round]
+			}
+			fidn := uint32(20000 + round*16 + i)
+			if r.Intn(6) == 0 {
+				fidn = peer.ErrFid + uint32(round*16+i) // the peer refuses this one
+			}
+			e := exp{kind: k, fid: s.fid(fidn), off: uint64(round*1000 + i), cnt: uint32(1 + r.Intn(100))}
+			var err error
+			switch k {
+			case "auth":
+				e.typ = wire.Tauth
+				err = tag.Auth(e.fid, user, "an")
+			case "attach":
+				e.typ = wire.Tattach
+				err = tag.Attach(e.fid, nil, user, "an")
+			case "walk":
+				e.typ = wire.Twalk
+				e.nf = s.fid(fidn + 40000)
+				err = tag.Walk(e.fid, e.nf, []string{"a", "b"})
+			case "open":
+				e.typ = wire.Topen
+				err = tag.Open(e.fid, 0)
+			case "create":
+				e.typ = wire.Tcreate
+				err = tag.Create(e.fid, fmt.Sprintf("n%d", i), 0o644, 1, "")
+			case "read":
+				e.typ = wire.Tread
+				err = tag.Read(e.fid, e.off, e.cnt)
+			case "write":
+				e.typ = wire.Twrite
+				e.data = r.Bytes(int(e.cnt))
+				err = tag.Write(e.fid, e.data, e.off)
+			case "clunk":
+				e.typ = wire.Tclunk
+				err = tag.Clunk(e.fid)
+			case "remove":
+				e.typ = wire.Tremove
+				err = tag.Remove(e.fid)
+			case "stat":
+				e.typ = wire.Tstat
+				err = tag.Stat(e.fid)
+			case "wstat":
+				e.typ = wire.Twstat
+				err = tag.Wstat(e.fid, &go9p.Dir{Name: fmt.Sprintf("w%d", i)})
+			}
+			if err != nil {
+				res.Violate("C09;tagmixed;issue-failed;"+k, fmt.Sprintf("Tag.%s could not be issued: %v", k, err), nil)
+				return res
+			}
+			exps = append(exps, e)
+		}
+		reqs := s.p.Collect(n, W)
+		if len(reqs) != n {
+			res.Violate("C09;tagmixed;requests-missing", fmt.Sprintf("%d pipelined requests, the peer received %d", n, len(reqs)), nil)
+			return res
+		}
+		answers := make([]*wire.Msg, n)
+		for i, rq := range reqs {
+			e := exps[i]
+			m := rq.Msg
+			wantFid := e.fid.Fid
+			gotFid := m.Fid
+			if m.Type == wire.Tauth {
+				gotFid = m.Afid
+			}
+			if m.Type != e.typ || gotFid != wantFid || (e.typ == wire.Tread && (m.Offset != e.off || m.Count != e.cnt)) || (e.typ == wire.Twrite && (m.Offset != e.off || !bytes.Equal(m.Data, e.data))) {
+				res.Violate("C09;tagmixed;wire-request;"+e.kind, fmt.Sprintf("request %d of %d under one tag: issued Tag.%s on fid %d, the peer received type %d on fid %d", i, n, e.kind, wantFid, m.Type, gotFid), nil)
+			}
+			if m.Tag != reqs[0].Msg.Tag {
+				res.Violate("C09;tagmixed;tag-differs", "requests issued through one Tag went out under different tags", nil)
+			}
+			answers[i] = s.p.Answer(m)
+			s.p.Reply(rq, answers[i])
+		}
+		res.Evals++
+		for i := 0; i < n; i++ {
+			e := exps[i]
+			var done *go9p.Req
+			select {
+			case done = <-reqchan:
+			case <-time.After(W):
+				res.Inconclusive = "c09: Tag completion missing"
+				return res
+			}
+			a := answers[i]
+			bad := ""
+			switch {
+			case done.Tc == nil || done.Tc.Type != e.typ:
+				bad = "carries another request"
+			case done.Rc == nil:
+				bad = "has no reply"
+			case done.Rc.Type != a.Type:
+				bad = fmt.Sprintf("reply type %d, the peer answered %d", done.Rc.Type, a.Type)
+			case a.Type == wire.Rerror && (done.Rc.Error != a.Ename || (dotu && done.Rc.Errornum != a.Ecode)):
+				bad = "error text/number of another reply"
+			case a.Type == wire.Rread && !bytes.Equal(done.Rc.Data, a.Data):
+				bad = "foreign data"
+			case a.Type == wire.Rwrite && done.Rc.Count != a.Count:
+				bad = "foreign count"
+			case a.Type == wire.Rstat && done.Rc.Dir.Name != a.Stat.Name:
+				bad = "foreign stat"
+			case (a.Type == wire.Rattach || a.Type == wire.Rauth || a.Type == wire.Ropen || a.Type == wire.Rcreate) && done.Rc.Qid.Path != a.Qid.Path:
+				bad = "foreign qid"
+			case a.Type == wire.Rwalk && (len(done.Rc.Wqid) != len(a.Wqid) || (len(a.Wqid) > 0 && done.Rc.Wqid[len(a.Wqid)-1].Path != a.Wqid[len(a.Wqid)-1].Path)):
+				bad = "foreign walk qids"
+			}
+			// effect on the fid the request names
+			if bad == "" {
+				switch {
+				case a.Type == wire.Rattach && e.fid.Qid.Path != a.Qid.Path:
+					bad = "attached fid does not carry the qid of its Rattach"
+				case a.Type == wire.Rcreate && e.fid.Qid.Path != a.Qid.Path:
+					bad = "created fid does not carry the qid of its Rcreate"
+				case a.Type == wire.Rwalk && e.nf != nil && e.nf.Qid.Path != a.Wqid[len(a.Wqid)-1].Path:
+					bad = "walked fid does not carry the last qid of its Rwalk"
+				}
+			}
+			if bad != "" {
+				res.Violate("C09;tagmixed;completion;"+e.kind, fmt.Sprintf("completion %d of %d requests under one tag (Tag.%s, fid %d): %s", i, n, e.kind, e.fid.Fid, bad), nil)
+			}
+			tag.ReqFree(done)
+		}
+		s.c.TagFree(tag)
+		res.Sig(fmt.Sprintf("tagmixed|%v|%d|%s", dotu, n, exps[0].kind))
+	}
+	res.Sample(map[string]interface{}{"scenario": "tag-interface, all operations", "rounds": rounds, "dotu": dotu})
+	conservation(&res, s, 0, "tagmixed")
 	return res
 }
